@@ -64,6 +64,8 @@ class Shadow:
                     self.edges[e] = (a[1], a[0])
                 elif e is None and r is not None:
                     self.edges[r] = (a[0], a[1])
+        elif o == "orientate":
+            self.d = True      # the directions afterwards are not tracked (the shadow only biases choices)
         elif o == "makeDirected":
             if not self.d:
                 self.d = True
@@ -144,6 +146,8 @@ def random_graph_case(rng, i, maxlen=40):
             op = "makeUndirected"
         elif r < 0.78:
             op = "setRoot %d" % pick_node(rng, sh)
+        elif r < 0.795:
+            op = "orientate"
         elif r < 0.86:
             op = "qn %d" % pick_node(rng, sh)
         elif r < 0.90:
@@ -180,7 +184,11 @@ class OShadow:
 NLAB = 10
 
 
-def random_observer_case(rng, i, maxlen=40):
+def random_observer_case(rng, i, maxlen=40, flavour=0):
+    """flavour 0: mostly object-level operations; 1: many operations made directly on the shared graph;
+    2: many copies (with edge objects and indices)"""
+    GP = (0.03, 0.16, 0.06)[flavour]     # share of graph-level mutators
+    CP = (0, 0, 1)[flavour]              # more copies
     directed = rng.random() < 0.5
     sh = Shadow(directed)
     obs = {0: OShadow()}
@@ -320,45 +328,222 @@ def random_observer_case(rng, i, maxlen=40):
                 e = sh.between(o.n[a], o.n[b]) if sh.d else None
                 if e is not None and e not in o.e.values():
                     o.e[x] = e
-        elif r < 0.80:
+        elif r < 0.785 + 0.03 * CP:
+            # copies: copy constructor, clone(), converting constructor (there and back), operator=
             kk = rng.randint(1, 2)
             if kk != k:
-                ops.append("o.copy %d %d" % (k, kk)); obs[kk] = o.copy()
-        elif r < 0.81:
+                kind = rng.choice(["o.copy", "o.copy", "o.clone", "o.copyvia", "o.assign"])
+                if kind == "o.assign" and kk not in obs:
+                    kind = "o.copy"
+                ops.append("%s %d %d" % (kind, k, kk)); obs[kk] = o.copy()
+            elif rng.random() < 0.3:
+                ops.append("o.assign %d %d" % (k, k))
+            else:
+                ops.append("o.assignx %d" % k)
+        elif r < 0.795 + 0.03 * CP:
             if k != 0:
                 ops.append("o.drop %d" % k); del obs[k]
-        elif r < 0.84:
-            # operations made directly on the shared graph
-            rr = rng.random()
-            if rr < 0.3 and len(sh.nodes) < MAXN:
-                g = "createNode"
-            elif rr < 0.5:
-                g = "deleteNode %d" % pick_node(rng, sh)
-            elif rr < 0.7:
-                g = "unlink %d %d" % pick_linked(rng, sh)
-            elif rr < 0.8:
-                g = "link %d %d" % (pick_node(rng, sh), pick_node(rng, sh))
-            elif rr < 0.9:
-                g = "makeDirected"
             else:
+                free = [j for j in (1, 2) if j not in obs]
+                if free:
+                    j = rng.choice(free)
+                    ops.append("o.attach %d" % j); obs[j] = OShadow()
+        elif r < 0.80 + 0.03 * CP:
+            a = node(o)
+            ops.append("o.setRoot %d %d" % (k, a) if rng.random() < 0.85 else "o.rereg %d" % k)
+        elif r < 0.80 + 0.03 * CP + GP:
+            # operations made directly on the shared graph (every mutator of GlobalGraph), aimed at the
+            # nodes / edges that carry objects (and indices) in some observer
+            def onode():
+                c = sorted({n for ob in obs.values() for n in ob.n.values() if n in sh.nodes})
+                return rng.choice(c) if c and rng.random() < 0.7 else pick_node(rng, sh)
+
+            def oedge():
+                c = sorted({e for ob in obs.values() for e in ob.e.values() if e in sh.edges})
+                return rng.choice(c) if c and rng.random() < 0.8 else pick_edge(rng, sh)
+
+            def oends():
+                e = oedge()
+                if e in sh.edges:
+                    a, b = sh.edges[e]
+                    return (b, a) if rng.random() < 0.25 else (a, b)
+                return pick_linked(rng, sh)
+            rr = rng.random()
+            sp = rng.random()
+            if sp < 0.05:
+                # a mutator called on a copy of the graph: nothing changes here
+                ops.append("gcopy %s %s" % (rng.choice(["ctor", "clone", "assign"]),
+                                            rng.choice(["deleteNode %d" % onode(), "unlink %d %d" % oends(), "createNodeOnEdge %d" % oedge(),
+                                                        "createNode", "makeUndirected", "link %d %d" % (onode(), onode())])))
+                continue
+            if sp < 0.075:
+                a, b = (oedge(), pick_edge(rng, sh)) if rng.random() < 0.5 else (onode(), pick_node(rng, sh))
+                kind = "notifyE" if rng.random() < 0.5 else "notifyN"
+                ops.append("%s %d %d" % (kind, a, b))
+                for ob in obs.values():
+                    m, mi = (ob.e, ob.ei) if kind == "notifyE" else (ob.n, ob.ni)
+                    for l in [l for l, v in m.items() if v in (a, b)]:
+                        del m[l]; mi.pop(l, None)
+                continue
+            if sp < 0.085:
+                n = rng.randint(0, 4)
+                ops.append("gassign %d" % n)
+                sh.d = not sh.d
+                sh.nodes = set(range(n)); sh.edges = {i: (i, i + 1) for i in range(n - 1)}
+                sh.nn = n; sh.ne = max(n - 1, 0)
+                for ob in obs.values():
+                    ob.n.clear(); ob.e.clear(); ob.ni.clear(); ob.ei.clear()
+                continue
+            if rr < 0.08 and len(sh.nodes) < MAXN:
+                g = "createNode"
+            elif rr < 0.22:
+                g = "deleteNode %d" % onode()
+            elif rr < 0.36:
+                g = "unlink %d %d" % oends()
+            elif rr < 0.44:
+                g = "link %d %d" % (onode(), onode())
+            elif rr < 0.49:
+                g = "makeDirected"
+            elif rr < 0.54:
                 g = "makeUndirected"
+            elif rr < 0.68 and len(sh.nodes) < MAXN:
+                g = "createNodeOnEdge %d" % oedge()
+            elif rr < 0.78 and len(sh.nodes) < MAXN - 1:
+                g = "createNodeFromEdge %d" % oedge()
+            elif rr < 0.84 and len(sh.nodes) < MAXN:
+                g = "createNodeFromNode %d" % onode()
+            elif rr < 0.91:
+                g = "switchNodes %d %d" % oends()
+            elif rr < 0.955:
+                e = oedge() if rng.random() < 0.4 else sh.ne + rng.randint(0, 2)
+                g = "linkE %d %d %d" % (onode(), onode(), e)
+            elif rr < 0.98:
+                g = "setRoot %d" % onode()
+            else:
+                g = "orientate"
             ops.append(g); sh.apply(g); forget_edges(); forget_nodes()
+            if rng.random() < 0.3:
+                ops.append(rng.choice(["qg", "qn %d" % pick_node(rng, sh), "qe %d" % pick_edge(rng, sh)]))
         elif r < 0.90:
             ops.append("o.qn %d %d" % (k, node(o)))
         elif r < 0.93:
             ops.append("o.qe %d %d" % (k, edge(o)))
-        elif r < 0.95:
+        elif r < 0.945:
             ops.append("o.qp %d %d %d" % (k, node(o), node(o)))
-        elif r < 0.98:
+        elif r < 0.97:
             ops.append("o.qg %d" % k)
+        elif r < 0.98:
+            ops.append("o.qid %d %d" % (k, rng.randint(0, max(sh.nn, sh.ne) + 1)))
+        elif r < 0.985:
+            ops.append("o.leavesFrom %d %d %d" % (k, node(o), rng.randint(0, 4)))
         else:
             ops.append("o.qi %d %d" % (k, rng.randint(0, 7)))
     for k in sorted(obs):
         ops.append("o.qg %d" % k)
         for a in sorted(obs[k].n)[:2]:
             ops.append("o.qn %d %d" % (k, a))
+        for x in sorted(obs[k].e)[:2]:
+            ops.append("o.qe %d %d" % (k, x))
+        for i in sorted(set(obs[k].ei.values()))[:2]:
+            ops.append("o.qi %d %d" % (k, i))
     ops.append("qg")
-    return ["case obs%d %s" % (i, "dir" if directed else "undir")] + ops
+    return ["case obs%d_%d %s" % (flavour, i, "dir" if directed else "undir")] + ops
+
+
+GRAPH_OPS = (["createNode", "makeDirected", "makeUndirected"]
+             + ["createNodeOnEdge %d" % e for e in (0, 1, 2, 3, 9)]
+             + ["createNodeFromEdge %d" % e for e in (0, 1, 2, 3, 9)]
+             + ["createNodeFromNode %d" % n for n in (0, 2, 9)]
+             + ["unlink %d %d" % p for p in ((0, 1), (1, 0), (1, 2), (0, 3), (2, 2), (3, 2), (0, 9))]
+             + ["deleteNode %d" % n for n in (0, 1, 2, 3, 9)]
+             + ["link %d %d" % p for p in ((2, 3), (1, 0), (3, 3), (0, 1), (0, 9))]
+             + ["linkE %d %d %d" % t for t in ((2, 3, 9), (3, 1, 0), (1, 3, 4))]
+             + ["switchNodes %d %d" % p for p in ((0, 1), (2, 1), (2, 2), (3, 0), (1, 3))]
+             + ["setRoot %d" % n for n in (2, 9)] + ["orientate", "gcopy ctor orientate"]
+             + ["gcopy ctor deleteNode 0", "gcopy clone createNodeOnEdge 0", "gcopy assign unlink 0 1", "gcopy ctor makeUndirected",
+                "gassign 0", "gassign 3", "notifyE 0 1", "notifyE 2 7", "notifyN 1 3", "notifyN 0 9"])
+
+COPY_KINDS = ["o.copy", "o.clone", "o.copyvia", "o.assign"]
+
+
+def observer_base(directed, eobj, idx, ncopies, copy_kind, loop):
+    """observer 0 builds 0->1, 1->2, 0->3 (and the loop 2->2) with or without edge objects, indices set
+    explicitly / allocated / absent; then up to two further observers are made from it"""
+    x = (lambda l: str(l)) if eobj else (lambda l: "-")
+    ops = ["o.createNode 0 0", "o.createNode 0 1", "o.link 0 0 1 %s" % x(5),
+           "o.createNodeFrom 0 1 2 %s" % (x(6) if eobj != 2 else "-"), "o.createNodeFrom 0 0 3 %s" % x(7)]
+    elabs = [5, 7] + ([6] if eobj == 1 else []) if eobj else []
+    if loop:
+        ops.append("o.link 0 2 2 %s" % x(8))
+        if eobj:
+            elabs.append(8)
+    if idx == 1:
+        ops += ["o.setNodeIndex 0 %d %d" % (a, 3 - a) for a in (0, 1, 3)]
+        ops += ["o.setEdgeIndex 0 %d %d" % (l, l - 4) for l in elabs]
+    elif idx == 2:
+        ops += ["o.addNodeIndex 0 %d" % a for a in (2, 0, 1)]
+        ops += ["o.addEdgeIndex 0 %d" % l for l in reversed(elabs)]
+    ks = [0]
+    for c in range(ncopies):
+        kind = COPY_KINDS[(copy_kind + c) % 4]
+        if kind == "o.assign":
+            ops.append("o.attach %d" % (c + 1))
+        ops.append("%s %d %d" % (kind, c, c + 1))
+        ks.append(c + 1)
+    return ops, ks, elabs
+
+
+def observer_tail(ks, elabs):
+    t = []
+    for k in ks:
+        t.append("o.qg %d" % k)
+        t += ["o.qe %d %d" % (k, l) for l in (5, 6, 7, 8)]
+        t += ["o.qi %d %d" % (k, i) for i in range(5)]
+        t += ["o.qn %d %d" % (k, a) for a in range(4)]
+        t.append("o.qp %d 0 1" % k)
+    t.append("qg")
+    return t
+
+
+def observer_matrix_cases(rng, depth2):
+    """every mutator of GlobalGraph applied directly to the graph of an observer (and its copies), in
+    every combination of directedness x edge objects x indices x number and kind of copies; followed by
+    all queries through every observer.  `depth2` further cases apply two such operations (sampled)."""
+    out = []
+    n = 0
+    configs = [(d, eo, ix, nc, lp) for d in (True, False) for eo in (0, 1, 2) for ix in (0, 1, 2) for nc in (0, 1, 2)
+               for lp in ((False, True) if d else (False,))]
+    for ci, (d, eo, ix, nc, lp) in enumerate(configs):
+        base, ks, elabs = observer_base(d, eo, ix, nc, ci, lp)
+        for g in GRAPH_OPS:
+            mid = [g]
+            # afterwards the object of a removed edge can be used again, and an object-level operation follows
+            if eo and ci % 2 == 0:
+                mid.append("o.link 0 %d %d 5" % (rng.randint(0, 3), rng.randint(0, 3)))
+            out.append(["case mx%d %s" % (n, "dir" if d else "undir")] + base + mid + observer_tail(ks, elabs))
+            n += 1
+    for _ in range(depth2):
+        d, eo, ix, nc, lp = rng.choice(configs)
+        base, ks, elabs = observer_base(d, eo, ix, nc, rng.randint(0, 3), lp)
+        mid = []
+        for _ in range(rng.randint(2, 3)):
+            mid.append(rng.choice(GRAPH_OPS))
+            if rng.random() < 0.3:
+                k = rng.choice(ks)
+                mid.append(rng.choice(["o.unlink %d %d %d" % (k, rng.randint(0, 3), rng.randint(0, 3)),
+                                       "o.deleteNode %d %d" % (k, rng.randint(0, 3)),
+                                       "o.link %d %d %d %s" % (k, rng.randint(0, 3), rng.randint(0, 3), rng.choice(["-", "5", "6", "9"])),
+                                       "o.addEdgeIndex %d %d" % (k, rng.choice([5, 6, 7, 9])),
+                                       "o.%s %d %d" % (rng.choice(["copy", "clone", "copyvia"]), k, (k + 1) % 3 or 1)]))
+                if mid[-1].startswith(("o.copy", "o.clone")):
+                    kk = int(mid[-1].split()[2])
+                    if kk == k:
+                        mid.pop()
+                    elif kk not in ks:
+                        ks = ks + [kk]
+        out.append(["case mxx%d %s" % (n, "dir" if d else "undir")] + base + mid + observer_tail(sorted(ks), elabs))
+        n += 1
+    return out
 
 
 def exhaustive_cases(length, nn, tag, alphabet_extra=True):
@@ -370,7 +555,7 @@ def exhaustive_cases(length, nn, tag, alphabet_extra=True):
     alpha += ["deleteNode %d" % a for a in ids]
     if alphabet_extra:
         alpha += ["switchNodes %d %d" % (a, b) for a in ids for b in ids if a <= b]
-        alpha += ["createNodeFromNode 0", "createNodeOnEdge 0", "createNodeFromEdge 1", "linkE 0 1 3", "linkE 1 0 0"]
+        alpha += ["createNodeFromNode 0", "createNodeOnEdge 0", "createNodeFromEdge 1", "linkE 0 1 3", "linkE 1 0 0", "orientate", "setRoot 1"]
     tail = ["qg"] + ["qn %d" % a for a in ids] + ["qp 0 1", "qe 0"]
     out = []
     k = 0
@@ -396,20 +581,53 @@ def generate(seed, tier):
     nrand = 30000 if tier == "thorough" else 2500
     for i in range(nrand):
         cases.append(random_graph_case(rng, i))
-    # 3. random histories through the association observers (up to 3 observers of one graph)
+    # 3. random histories through the association observers (up to 3 observers of one graph): mostly
+    #    object-level operations / many operations made directly on the shared graph / many copies
     nobs = 30000 if tier == "thorough" else 3000
     for i in range(nobs):
-        cases.append(random_observer_case(rng, i))
+        cases.append(random_observer_case(rng, i, flavour=(0, 1, 1, 2)[i % 4]))
+    # 4. every graph-level mutator on a graph with observers, in every configuration of
+    #    directedness x edge objects x indices x copies; then sampled sequences of two or three
+    cases += observer_matrix_cases(rng, 12000 if tier == "thorough" else 1200)
     return cases
 
 
+GRAPH_MUTATORS = {"createNode", "createNodeFromNode", "createNodeOnEdge", "createNodeFromEdge", "link", "linkE", "unlink",
+                  "switchNodes", "deleteNode", "makeDirected", "makeUndirected", "setRoot", "orientate", "gassign"}
+COPY_OPS = {"o.copy", "o.clone", "o.copyvia", "o.assign"}
+
+
 def coverage_extra(cases, answers):
-    """distribution of what was generated: lengths, nodes alive at the end, directedness"""
+    """distribution of what was generated: lengths, directedness, and in which states the graph-level
+    mutators and the copies were exercised"""
     lens = {}
     und = 0
+    with_obs = {}        # graph-level mutator -> executions on a graph on which some observer holds an edge object
+    with_copies = {}     # ... while two or more observers exist
+    copies = {}          # kind of copy -> executions / of a source holding an indexed edge object
     for c in cases:
         n = len(c) - 1
         b = "%d-%d" % (n // 10 * 10, n // 10 * 10 + 9)
         lens[b] = lens.get(b, 0) + 1
         und += c[0].endswith("undir")
-    return {"history_length_histogram": lens, "undirected_cases": und, "directed_cases": len(cases) - und}
+        eobj = False; eidx = False; nobs = 1
+        for l in c[1:]:
+            t = l.split()
+            o = t[0]
+            if o in ("o.link", "o.createNodeFrom") and t[-1] != "-":
+                eobj = True
+            elif o in ("o.addEdgeIndex", "o.setEdgeIndex"):
+                eidx = True
+            elif o in COPY_OPS or o == "o.attach":
+                nobs += 1
+                if o in COPY_OPS:
+                    k = copies.setdefault(o, [0, 0]); k[0] += 1; k[1] += eobj and eidx
+            elif o in GRAPH_MUTATORS:
+                if eobj:
+                    with_obs[o] = with_obs.get(o, 0) + 1
+                    if nobs > 1:
+                        with_copies[o] = with_copies.get(o, 0) + 1
+    return {"history_length_histogram": lens, "undirected_cases": und, "directed_cases": len(cases) - und,
+            "graph_mutators_after_an_edge_object_was_linked": with_obs,
+            "graph_mutators_with_edge_objects_and_several_observers": with_copies,
+            "copies_total_and_after_indexed_edge_object": copies}
